@@ -374,6 +374,11 @@ func prepare(cfg config, work, mod string, r *run, iters int) {
 	defer os.RemoveAll(regen + "_2")
 	for _, p := range m.Pkgs {
 		for pass, dst := range []string{filepath.Join(mod, p.Dir), filepath.Join(regen, p.ID), filepath.Join(regen+"_2", p.ID)} {
+			if pass == 2 {
+				// the third run writes over files that already exist and are longer (output of an earlier,
+				// larger version of the schema): the result must not depend on what was there
+				prefillStale(filepath.Join(mod, p.Dir), dst)
+			}
 			err, panicked, hung := generate(filepath.Join(src, p.ID), dst, []string{src}, r.skipRPC)
 			switch {
 			case hung:
@@ -424,6 +429,26 @@ func prepare(cfg config, work, mod string, r *run, iters int) {
 		if err != nil {
 			r.addViol("test-does-not-compile", "harness-emitter:"+err.Error())
 		}
+	}
+}
+
+// prefillStale copies the generated files of `from` into `to` with a long stale tail appended.
+func prefillStale(from, to string) {
+	es, err := os.ReadDir(from)
+	if err != nil {
+		return
+	}
+	os.MkdirAll(to, 0o755)
+	tail := []byte(strings.Repeat("// stale line of an earlier, larger version of this file\nvar _ = staleSymbolOfAnEarlierVersion\n", 400))
+	for _, e := range es {
+		if !strings.HasSuffix(e.Name(), "_generated.go") {
+			continue
+		}
+		b, err := os.ReadFile(filepath.Join(from, e.Name()))
+		if err != nil {
+			continue
+		}
+		os.WriteFile(filepath.Join(to, e.Name()), append(b, tail...), 0o644)
 	}
 }
 
